@@ -29,10 +29,14 @@ func (c12) ID() string { return "C12" }
 
 func (c12) Budget(tier string) int {
 	if tier == "thorough" {
-		return 900000
+		return 900000 + c12Triples
 	}
-	return 24000
+	return 24000 + c12Triples
 }
+
+// c12Triples: register writes in three consecutive machine cycles, enumerated: 64 divider phases x
+// 4 running TAC values x TAC value x TAC value x {TMA, TIMA, DIV, TAC} with TIMA = FF beforehand.
+const c12Triples = 64 * 4 * 8 * 8 * 4
 
 func (c12) Describe() engine.Info {
 	return engine.Info{
@@ -91,6 +95,39 @@ func c12Addr(k string) uint16 {
 
 func (c12) Generate(r *engine.Rand, index int, tier string) *engine.Scenario {
 	sc := &engine.Scenario{Cart: simpleRom()}
+	if base := (c12{}).Budget(tier) - c12Triples; index >= base {
+		k := index - base
+		sc.Class = "triple"
+		sc.Init = []engine.Event{{K: "ctr", N: int64(k&63) * 4}}
+		k >>= 6
+		tac0 := uint8(4 + k&3)
+		k >>= 2
+		w1 := uint8(k & 7)
+		k >>= 3
+		w2 := uint8(k & 7)
+		k >>= 3
+		w := func(at uint64, name string, v uint8) {
+			sc.Events = append(sc.Events, engine.Event{At: at, K: "bus_w", A: c12Addr(name), V: v, S: name})
+		}
+		w(0, "tma", r.EdgeByte())
+		w(1, "tac", tac0)
+		w(2, "tima", 0xff)
+		t := uint64(3 + r.Intn(2))
+		w(t, "tac", w1)
+		w(t+1, "tac", w2)
+		switch k & 3 {
+		case 0:
+			w(t+2, "tma", r.Byte())
+		case 1:
+			w(t+2, "tima", r.Byte())
+		case 2:
+			w(t+2, "div", 0)
+		default:
+			w(t+2, "tac", r.Byte()&7)
+		}
+		sc.Cycles = t + 2 + uint64(r.Range(6, 40))
+		return sc
+	}
 	phase := engine.Pick(r, c12Phases)
 	if r.Chance(1, 4) {
 		phase = r.U16() &^ 3
